@@ -11,6 +11,7 @@ open SoupVerif
 #print axioms C05.list_perm
 #print axioms C05.null_alternative
 #print axioms C05.empty_list
+#print axioms C05.null_only
 #print axioms C05.not_compl_html
 #print axioms C05.html_only_never_in_xml
 #print axioms C05.not_compl_general
@@ -37,6 +38,8 @@ open SoupVerif
 #print axioms matchSubs_eq_all
 #print axioms matchSel_mk_subs
 #print axioms subs_guard
+#print axioms matchList_pos
+#print axioms matchList_neg
 
 namespace SoupVerif.AuditC05
 
@@ -74,6 +77,14 @@ example : run false (sel [withSubs ([sel [tagSel "p", tagSel "span"] false false
     false false) = [[0,0],[0,2,0]] := by decide
 -- `:not(:not(p))`
 example : run false (sel [withSubs [sel [tagSel "p"] true false]] true false) = [[0,0],[0,2,0]] := by decide
+-- the empty list matches nothing, negated or not (Python: `match = False` before the loop), whereas
+-- a lone `SelectorNull` negated matches everything: `A ≠ []` in `not_compl_html` is necessary
+example (c : Ctx) (l : Loc) (e : Elem) : matchList c l e (.mk [] true false) = false := C05.empty_list c l e true false
+example (c : Ctx) (l : Loc) (e : Elem) : matchList c l e (.mk [] true false) = false := by simp [matchList]
+example : run false (sel [] false false) = [] := by decide
+example : run false (sel [] true false) = [] := by decide
+example : run false (sel [.null] false false) = [] := by decide
+example : run false (sel [.null] true false) = [[0],[0,0],[0,2],[0,2,0]] := by decide
 -- the guard `(!h || c.isHtml)` of `not_compl_html` holds for an HTML-only list in an HTML document
 example : (mkCtx E0 false [] top).isHtml = true := by decide
 example : run false (sel [tagSel "p"] false true) = [[0,0],[0,2,0]] := by decide
